@@ -272,6 +272,10 @@ def _compute_slice_cases(cs):
         got = fr.ret
         if not (isinstance(got, tuple) and len(got) == 2 and isinstance(got[0], (list, tuple)) and isinstance(got[1], dict)):
             return None
+        if isinstance(key, list):
+            # the caller's key object must be left as it was (it may be used again, on Points with another column layout)
+            same = len(key0) == len(key) and all((a == b) if not isinstance(a, slice) else (isinstance(b, slice) and (a.start, a.stop, a.step) == (b.start, b.stop, b.step)) for a, b in zip(key0, key))
+            out.append((f"rank {rank}, key {key!r}: the caller's list is not modified", same, f"the list handed in became {key0!r}"))
         if isinstance(key, list) and all(isinstance(x, (int, bool)) for x in key):
             # a list of row numbers / a list mask on the first batch axis: handed on as the same LIST (a tuple would address several axes), whole space kept
             ok = isinstance(got[0], list) and list(got[0]) == list(key) and list(got[1].items()) == dims
@@ -629,6 +633,7 @@ def run(repo: Repo, rep):
 _P = "src/torchphysics/problem/spaces/points.py"
 _S = "src/torchphysics/problem/spaces/space.py"
 MUTANTS = [
+    dict(id="C12-M60", file="src/torchphysics/problem/spaces/points.py", old="        if isinstance(val, (tuple, list)):", new="        if isinstance(val, tuple):", rule="R-C12-3", what="list keys modified in place (the repaired defect)"),
     dict(id="C12-M1", file=_P, old="torch.cat([self._t, other._t], dim=-1), self.space * other.space", new="torch.cat([self._t, other._t], dim=-1), other.space * self.space", rule="R-C12-1", what="space product swapped in join"),
     dict(id="C12-M2", file=_P, old="                    for var in out_space:\n                        out_idxs += rng[slc[var]]", new="                    for var in self.space:\n                        if var in out_space:\n                            out_idxs += rng[slc[var]]", rule="R-C12-3", what="columns in storage order"),
     dict(id="C12-M3", file=_P, old="            start += self.space[v]", new="            start += 1", rule="R-C12-2", what="offset advances by one"),
